@@ -7,6 +7,16 @@ Model: `Target/Model.lean` (target language + runtime stacks + exception oracle 
 modelled grammar** (any nesting: structural induction in `Codegen/Lemmas.lean`), **every crash point** `k`,
 **every fuel** and **every start state** whose stored closures are generated code (`LocOK`, `StOK` – true of
 `St.init` and preserved by every execution).  `o ≠ .timeout` excludes only the model's out-of-fuel artefact.
+
+OPEN
+* `handled_equals_spec` in full (every template of the grammar): proved for the control fragment only
+  (`handled_equals_spec_partial`, `handled_equals_spec_render_partial`); false as an unguarded statement because a
+  `return` inside a buffered def loses its content in mako (`handled_equals_spec_counterexample`).
+* finding F-C13-1 (known_findings.json): with `format_exceptions`, `Template.render_context` leaves the error page
+  in a fresh internal buffer instead of the caller's buffer.  The model follows the code (`execTemplate`,
+  `format_exceptions_renders_error_page` speak about `render()`).
+Not modelled: asynchronous exceptions, cache back ends, inheritance chains, namespaces of other templates and
+python-module `supports_caller` defs (oracle streams of the check only).
 -/
 namespace MakoModel.C13
 open MakoModel.Target MakoModel.Codegen
@@ -359,7 +369,13 @@ example : (renderErrorObj ⟨some false, false⟩ ⟨1, 7, [302, 5], false⟩).h
 /-- **The error page replaces the whole shared buffer stack, for every alias of the context.**  When the failing
     callable ran on a copy of the caller's context (`<%inherit>`, includes, namespaces: `Context._copy` shares the
     `_buffer_stack` list), the caller's context – the one `_render` pops the result from, or the one handed to
-    `render_context` – sees exactly one buffer, holding the error page: no partial output in front of it. -/
+    `render_context` – sees exactly one buffer, holding the error page: no partial output in front of it.
+
+    This is a statement about aliasing on the small heap model `CtxHeap` / `renderErrorHeap` (a context is its
+    reference to a list object; the replacement happens in the object).  It is not derived from `execTemplate`,
+    which has a single state and no context copies; the stream `corr.shared_stack` checks on every run that the
+    real error path hands `_render_error` a context whose `_buffer_stack` *is* the caller's list and that the
+    caller then sees what this model says. -/
 theorem error_page_replaces_shared_stack (h : CtxHeap) (caller : CtxRef) (page : Str)
     (hlive : caller.stack < h.stacks.length) :
     ∀ alias : CtxRef, alias.stack = caller.stack →
